@@ -75,7 +75,7 @@ def addKey (bits k : Nat) (f : Bytes) (key : Bytes) : Bytes :=
 def createFilter (bitsPerKey : Nat) (keys : List Bytes) : Bytes :=
   let filterBits := keys.length * bitsPerKey
   let nbytes := if filterBits < Consts.bloomMinBits then 8 else (filterBits + 7) / 8
-  let adj := u32 (nbytes * 8)
+  let adj := (nbytes * 8) % 2 ^ Consts.bloomBitsWidth
   let f := keys.foldl (addKey adj (kOf bitsPerKey)) (List.replicate nbytes 0)
   f ++ [UInt8.ofNat (kOf bitsPerKey)]
 
@@ -88,7 +88,7 @@ def checkProbes (bits d : Nat) (f : Bytes) : Nat → Nat → Bool
 def keyMayMatch (key filter : Bytes) : Bool :=
   if filter.length < 2 then true
   else
-    let bits := u32 ((filter.length - 1) * 8)
+    let bits := ((filter.length - 1) * 8) % 2 ^ Consts.bloomBitsWidth
     let k := (filter.getD (filter.length - 1) 0).toNat
     let adj := filter.take (filter.length - 1)
     if k > 30 then true
